@@ -513,6 +513,16 @@ class Program:
         for c in self.libs.values():
             self.adts.update(c.adts)
         self._closures_of = None
+        self._short = None
+
+    def fn_by_short(self, short):
+        """function whose path equals `short` once generic argument lists are removed"""
+        if self._short is None:
+            self._short = {}
+            for f in self.fns.values():
+                self._short.setdefault(strip_generics(f.path), []).append(f)
+        c = self._short.get(strip_generics(short), [])
+        return c[0] if len(c) == 1 else None
 
     def target(self, term):
         """the workspace function a call terminator resolves to (across crates), or None
